@@ -190,15 +190,13 @@ class EngineAI:
         self.reasons = None
 
     def _byenum_tags(self):
-        t = self.src.tree(AVF)
-        fac = get_class(t, 'AttributeValueFactory')
-        be = get_method(fac, 'create_attribute_value_by_enum')
-        out = set()
-        for n in ast.walk(be):
-            if isinstance(n, ast.If) and isinstance(n.test, ast.Compare):
-                em = enum_member(n.test.comparators[0], 'Tags')
-                if em and any(isinstance(s, ast.Return) for s in n.body):
-                    out.add(em[1])
+        """tags for which the by-tag attribute value factory builds a value (the FactoryModel decides, by folding the registry)"""
+        from .factmodel import FactoryModel
+        fm = self.src.__dict__.get('_shared_factmodel')
+        if fm is None:
+            fm = FactoryModel(self.src)
+            self.src.__dict__['_shared_factmodel'] = fm
+        out = set(t for t, res in fm.by_tag.items() if res)
         if len(out) < 20:
             raise AnalysisError('instance floor not met: by-enum attribute factory arms %d' % len(out))
         return out
